@@ -74,7 +74,9 @@ theorem good_lexNumber (c : Char) (r : List Char) : Good c r (lexNumber c r) := 
           · simp at hk; subst hk; simp
           · split at hk <;> simp at hk; subst hk; simp
         · simp at hk
-      · simp at hk
+      · split at hk
+        · simp at hk; subst hk; simp
+        · split at hk <;> simp at hk; subst hk; simp
   · have h := numPrefix_append c r
     simp only []
     split
